@@ -570,6 +570,9 @@ class RandMaxVar(MaxVar):
             return pt_eval.ravel()
 
         def _evaluate_logpdf(theta):
+            # The acquisition density has no mass outside the model bounds
+            if any(not (b[0] <= t <= b[1]) for t, b in zip(np.ravel(theta), gp.bounds)):
+                return -np.inf
             val_pdf = self.evaluate(theta)
             if val_pdf == 0:
                 return -np.inf
